@@ -141,6 +141,11 @@ RuleVal(r, args, inst, oname, ci, couts, fc) ==
                                   @@ ("b" :> VObj(("f" :> VFile(inst, oname \o "_b", fc)) @@ ("n" :> VInt(2)))))
       [] r.k = "fastruct" -> VArr(<<VObj(("f" :> VFile(inst, oname \o "_0", fc)) @@ ("n" :> VInt(1))),
                                     VObj(("f" :> VFile(inst, oname \o "_1", fc)) @@ ("n" :> VInt(2)))>>)
+      [] r.k = "files11" -> VArr([i \in 1..11 |-> VFile(inst, oname \o "_" \o ToString(i - 1), fc)])
+      [] r.k = "fmissing" -> VFile(inst, oname \o ".missing", fc)   \* names a file that was never written
+      [] r.k = "flink" -> VFile(inst, oname \o ".lnk", fc)          \* a symbolic link to a file of the stage
+      [] r.k = "flink2" -> VFile(inst, oname \o ".lnk2", fc)        \* a chain of relative links through sub-directories
+      [] r.k = "fsm" -> VObj(("label" :> VStr("x")) @@ ("m" :> VObj("k" :> VInt(1))) @@ ("f" :> VFile(inst, oname \o "_f", fc)))
       [] r.k = "dir"   -> VFile(inst, oname \o ".d", fc)      \* a directory holding two files
       [] r.k = "fstruct" -> VObj(("f" :> VFile(inst, oname \o "_f", fc)) @@ ("n" :> VInt(7)))
       [] r.k = "echo"  -> args[r.src]
